@@ -115,7 +115,11 @@ impl ClosestDisjointPeersIter {
         {
             updated = self.iters[*initiated_by].on_failure(peer);
 
-            if updated {
+            // Record the first result even if the initiating iterator no longer
+            // cares (e.g. it has already finished): iterators that yield this
+            // peer later look the response up here and would otherwise wait for
+            // a notification that never comes.
+            if updated || matches!(response, ResponseState::Waiting) {
                 *response = ResponseState::Failed;
             }
 
@@ -163,11 +167,12 @@ impl ClosestDisjointPeersIter {
             // the peer.
             updated = self.iters[*initiated_by].on_success(peer, closer_peers);
 
-            if updated {
+            if updated || matches!(response, ResponseState::Waiting) {
                 // Mark the response as succeeded for future iterators yielding
-                // this peer. There is no need to keep the `closer_peers`
-                // around, given that they are only passed to the first
-                // iterator.
+                // this peer, also when the initiating iterator no longer cares
+                // (e.g. it has already finished). There is no need to keep the
+                // `closer_peers` around, given that they are only passed to the
+                // first iterator.
                 *response = ResponseState::Succeeded;
             }
 
